@@ -334,6 +334,7 @@ func (P) Generate(g *core.Gen) {
 	genFinal(g, g.R.Fork())
 	genSeqLock(g, g.R.Fork())
 	genHardening(g, g.R.Fork())
+	genRound3(g, g.R.Fork())
 }
 
 func genMerkle(g *core.Gen, r *core.Rand) {
@@ -1263,5 +1264,235 @@ func genSanity(g *core.Gen, r *core.Rand) {
 		txs[2] = plainTx(r, c-10000-3)
 		txs[3] = plainTx(r, 3)
 		emit("sanity-sigop-limit", txidRoot(txs), txs)
+	}
+}
+
+// ---------------------------------------------------------------- round 3
+
+// classScript returns (scriptSig, spent scriptPubKey, witness) of one input of a named class.
+func classScript(r *core.Rand, class int) ([]byte, []byte, wire.TxWitness) {
+	ms := func() []byte { // k-of-n multisig with a random small n
+		n := 1 + r.Intn(16)
+		s := []byte{byte(0x51 + r.Intn(n))}
+		for i := 0; i < n; i++ {
+			s = append(s, 0x21)
+			s = append(s, r.Bytes(33)...)
+		}
+		return append(s, byte(0x50+n), 0xae)
+	}
+	switch class % 8 {
+	case 0: // legacy P2PKH spend
+		return pushOf(r.Bytes(71), false), append([]byte{0x76, 0xa9, 0x14}, append(r.Bytes(20), 0x88, 0xac)...), nil
+	case 1: // P2SH multisig
+		return append([]byte{0x00}, pushOf(ms(), false)...), p2shScript(r), nil
+	case 2: // P2WPKH
+		return nil, append([]byte{0x00, 0x14}, r.Bytes(20)...), wire.TxWitness{r.Bytes(71), r.Bytes(33)}
+	case 3: // P2WSH multisig
+		return nil, append([]byte{0x00, 0x20}, r.Bytes(32)...), wire.TxWitness{{}, r.Bytes(71), ms()}
+	case 4: // P2SH-nested P2WSH
+		return pushOf(append([]byte{0x00, 0x20}, r.Bytes(32)...), false), p2shScript(r), wire.TxWitness{{}, ms()}
+	case 5: // P2SH-nested P2WPKH
+		return pushOf(append([]byte{0x00, 0x14}, r.Bytes(20)...), false), p2shScript(r), wire.TxWitness{r.Bytes(71), r.Bytes(33)}
+	case 6: // taproot
+		return nil, append([]byte{0x51, 0x20}, r.Bytes(32)...), wire.TxWitness{r.Bytes(64)}
+	default: // bare multisig output spent with a scriptSig that itself contains sigop bytes
+		return []byte{0x00, 0x02, 0xac, 0xac, 0xac}, ms(), nil
+	}
+}
+
+func perm(r *core.Rand, n int) []int {
+	p := make([]int, n)
+	for i := range p {
+		p[i] = i
+	}
+	for i := n - 1; i > 0; i-- {
+		j := r.Intn(i + 1)
+		p[i], p[j] = p[j], p[i]
+	}
+	return p
+}
+
+func genRound3(g *core.Gen, r *core.Rand) {
+	// lessons 6 + 7: one transaction / view shared by many calls; every input of a different class
+	for i := 0; i < g.N(150, 1200); i++ {
+		t := &wire.MsgTx{Version: int32(r.Pick(1, 2))}
+		order := perm(r, 8)
+		nin := 2 + r.Intn(7)
+		var us []string
+		for j := 0; j < nin; j++ {
+			sig, pk, wit := classScript(r, order[j])
+			t.TxIn = append(t.TxIn, &wire.TxIn{PreviousOutPoint: randOutPoint(r), SignatureScript: sig, Sequence: r.U32(), Witness: wit})
+			us = append(us, hx(pk))
+		}
+		// the unavailable output (if any) at the first, a middle or the last position
+		switch r.Intn(6) {
+		case 0:
+			us[0] = "x"
+		case 1:
+			us[nin/2] = "s" + us[nin/2]
+		case 2:
+			us[nin-1] = "x"
+		}
+		for j := 0; j < 1+r.Intn(3); j++ {
+			_, pk, _ := classScript(r, r.Intn(8))
+			t.TxOut = append(t.TxOut, &wire.TxOut{Value: int64(r.Intn(1e6)), PkScript: pk})
+		}
+		cb := r.Chance(1, 10)
+		line := fmt.Sprintf("%s %s %s", txTok(t), b01(cb), strings.Join(us, ","))
+		g.Case("inputs-as-values-heterogeneous", true, "C13 inval "+line)
+		if i%3 == 0 {
+			g.Case("cost-heterogeneous", true, fmt.Sprintf("C13 cost %s %s 1 1 %s", txTok(t), b01(cb), strings.Join(us, ",")))
+		}
+	}
+	// one chain + one view queried by several transactions that differ in version, flags, input
+	// ages and lock types
+	seqs := []uint32{0, 1, 5, 0xffff, 1 << 22, 1<<22 | 1, 1<<22 | 0xffff, 1 << 31, 1<<31 | 1<<22 | 9, 0x10003, 0xffffffff}
+	for i := 0; i < g.N(120, 1000); i++ {
+		n := 3 + r.Intn(28)
+		ts := make([]string, n)
+		base := int64(1500000000)
+		for j := range ts {
+			base += r.Range(-400, 900)
+			ts[j] = strconv.FormatInt(base, 10)
+		}
+		var cases []string
+		for c := 0; c < 3+r.Intn(4); c++ {
+			ver := uint32(r.Pick(1, 2, 2, 2, 3, 0x80000002))
+			cb := r.Chance(1, 15)
+			nin := 1 + r.Intn(5)
+			if cb {
+				nin = 1
+			}
+			ins := make([]string, nin)
+			for j := range ins {
+				h := strconv.Itoa(r.Intn(n))
+				switch r.Intn(9) {
+				case 0:
+					h = "m"
+				case 1:
+					if r.Chance(1, 3) {
+						h = "x"
+					}
+				}
+				ins[j] = fmt.Sprintf("%d:%s", seqs[r.Intn(len(seqs))], h)
+			}
+			cases = append(cases, fmt.Sprintf("%s!%d!%s!%s", b01(!r.Chance(1, 6)), ver, b01(cb), strings.Join(ins, ",")))
+		}
+		g.Case("seqlock-shared-chain", true, fmt.Sprintf("C13 seqmulti %s %s", strings.Join(ts, ","), strings.Join(cases, "/")))
+	}
+	// lesson 10: every bit of the commitment magic, the decisive item at the first / a middle / the last position
+	magicScript := func() []byte { return append([]byte{0x6a, 0x24, 0xaa, 0x21, 0xa9, 0xed}, r.Bytes(32)...) }
+	for byteIdx := 0; byteIdx < 6; byteIdx++ {
+		for bit := 0; bit < 8; bit++ {
+			s := magicScript()
+			s[byteIdx] ^= 1 << bit
+			g.Case("commit-magic-bit-sweep", true, "C13 commit "+txTok(coinbaseTx(r, []*wire.TxOut{{PkScript: []byte{0x51}}, {PkScript: s}}, nil)))
+		}
+	}
+	for v := 0; v < 256; v++ { // every value of the byte right after the magic position 0 / the push length byte
+		s := magicScript()
+		s[1] = byte(v)
+		g.Case("commit-magic-byte-sweep", v == 0x24, "C13 commit "+txTok(coinbaseTx(r, []*wire.TxOut{{PkScript: s}}, nil)))
+	}
+	for _, n := range []int{1, 2, 5, 9} {
+		for _, p := range []int{0, n / 2, n - 1} {
+			for _, q := range []int{-1, 0, n / 2, n - 1} {
+				outs := make([]*wire.TxOut, n)
+				for j := range outs {
+					outs[j] = &wire.TxOut{Value: int64(j), PkScript: append([]byte{0x6a, 0x24, 0xaa, 0x21, 0xa9}, r.Bytes(33)...)} // near miss
+				}
+				outs[p] = &wire.TxOut{PkScript: magicScript()}
+				if q >= 0 && q != p {
+					outs[q] = &wire.TxOut{PkScript: magicScript()}
+				}
+				g.Case("commit-position-sweep", true, "C13 commit "+txTok(coinbaseTx(r, outs, nil)))
+			}
+		}
+	}
+	// the one non-final sequence / the one disabled or dominating lock at each position
+	for _, n := range []int{1, 2, 3, 6} {
+		for p := 0; p < n; p++ {
+			ss := make([]string, n)
+			for j := range ss {
+				ss[j] = "4294967295"
+			}
+			ss[p] = "4294967294"
+			g.Case("final-position-sweep", true, fmt.Sprintf("C13 final 500000100 10 500000050 %s", strings.Join(ss, ",")))
+			g.Case("final-position-sweep", true, fmt.Sprintf("C13 final 100 10 500000050 %s", strings.Join(ss, ",")))
+			ins := make([]string, n)
+			for j := range ins {
+				ins[j] = "1:1"
+			}
+			ins[p] = "4194309:3"
+			g.Case("seqlock-position-sweep", true, fmt.Sprintf("C13 seqlock 1 2 0 1500000000,1500000900,1500000500,1500001700,1500001200 %s", strings.Join(ins, ",")))
+			ins[p] = "30:4"
+			g.Case("seqlock-position-sweep", true, fmt.Sprintf("C13 seqlock 1 2 0 1500000000,1500000900,1500000500,1500001700,1500001200 %s", strings.Join(ins, ",")))
+			ins[p] = "1:x"
+			g.Case("seqlock-position-sweep", true, fmt.Sprintf("C13 seqlock 1 2 0 1500000000,1500000900,1500000500,1500001700,1500001200 %s", strings.Join(ins, ",")))
+		}
+	}
+	// duplicate transactions at arbitrary positions (root computed over the list as it is)
+	for i := 0; i < g.N(40, 300); i++ {
+		n := 3 + r.Intn(8)
+		txs := []*wire.MsgTx{coinbaseTx(r, []*wire.TxOut{{Value: 50, PkScript: []byte{0x51}}}, nil)}
+		for len(txs) < n {
+			txs = append(txs, plainTx(r, 0))
+		}
+		a := 1 + r.Intn(n-1)
+		b := 1 + r.Intn(n-1)
+		switch r.Intn(3) {
+		case 0:
+			a, b = 1, n-1
+		case 1:
+			b = a + 1
+			if b >= n {
+				a, b = n-2, n-1
+			}
+		}
+		if a != b {
+			txs[b] = txs[a]
+		}
+		root := txidRoot(txs)
+		g.Case("sanity-duplicate-positions", a != b, fmt.Sprintf("C13 sanity %s %d %d %s", hx(root), grind(root), r.Intn(2), txsTok(txs)))
+	}
+	// a witness-carrying transaction at each position of a block without commitment
+	for _, n := range []int{1, 2, 4, 7} {
+		for p := 0; p < n; p++ {
+			txs := []*wire.MsgTx{coinbaseTx(r, []*wire.TxOut{{Value: 50, PkScript: []byte{0x51}}}, nil)}
+			for len(txs) < n {
+				txs = append(txs, plainTx(r, 0))
+			}
+			txs[p].TxIn[0].Witness = wire.TxWitness{r.Bytes(1 + r.Intn(3))}
+			g.Case("vwc-witness-position-sweep", true, "C13 vwc "+txsTok(txs))
+			g.Case("vwc-witness-position-sweep", true, "C13 vwcb "+txsTok(txs))
+		}
+	}
+	// lesson 8: empty-but-non-nil and degenerate shapes reached directly
+	empties := []*wire.MsgTx{
+		{Version: 1, TxIn: []*wire.TxIn{}, TxOut: []*wire.TxOut{}},
+		{Version: 1, TxIn: []*wire.TxIn{{Witness: wire.TxWitness{}}}, TxOut: []*wire.TxOut{{PkScript: []byte{}}}},
+		{Version: 1, TxIn: []*wire.TxIn{{Witness: wire.TxWitness{{}}}}},
+		{Version: 1, TxIn: []*wire.TxIn{{Witness: wire.TxWitness{{}, {}}}, {}}},
+		{Version: 1, TxIn: []*wire.TxIn{{SignatureScript: []byte{}}, {Witness: wire.TxWitness{{0}}}}},
+	}
+	for _, t := range empties {
+		g.Case("degenerate-shapes", false, "C13 txw "+txTok(t))
+		g.Case("degenerate-shapes", false, "C13 iscb "+txTok(t))
+		g.Case("degenerate-shapes", false, "C13 commit "+txTok(t))
+		if len(t.TxIn) > 0 {
+			g.Case("degenerate-shapes", false, "C13 merkle 1 "+txsTok([]*wire.MsgTx{t, t}))
+			us := make([]string, len(t.TxIn))
+			for j := range us {
+				us[j] = "-"
+			}
+			g.Case("degenerate-shapes", false, fmt.Sprintf("C13 inval %s 0 %s", txTok(t), strings.Join(us, ",")))
+		}
+	}
+	for _, s := range []string{"-", "00", "4c00", "4d0000", "4e00000000", "0100", "004c004d00004e00000000"} {
+		g.Case("degenerate-shapes", false, fmt.Sprintf("C13 p2sh %s %s", s, hx(p2shScript(r))))
+		g.Case("degenerate-shapes", false, fmt.Sprintf("C13 wsig %s %s -", s, hx(p2shScript(r))))
+		g.Case("degenerate-shapes", false, fmt.Sprintf("C13 wsig %s %s _", s, hx(append([]byte{0x00, 0x20}, r.Bytes(32)...))))
+		g.Case("degenerate-shapes", false, "C13 tok "+s)
+		g.Case("degenerate-shapes", false, "C13 script "+s)
 	}
 }
